@@ -311,6 +311,27 @@ def gen_reverse(rnd, n=None, p_err=0.2):
     return P
 
 
+def reverse_catalogue():
+    """Small reverse workflows: a chain, a diamond of requirements, a failing dependency, a task outside the target's closure."""
+    out = []
+
+    def prog(reqs, target, oracle=None):
+        P = Program()
+        P.type = 'reverse'
+        P.order = list(reqs)
+        P.tasks = {t: {'kind': 'action', 'requires': list(r)} for t, r in reqs.items()}
+        P.oracle = {t: ['ok'] for t in reqs}
+        P.oracle.update(oracle or {})
+        P.target = target
+        return P
+    out.append(('rev_chain', prog({'r0': [], 'r1': ['r0'], 'r2': ['r1']}, 'r2')))
+    out.append(('rev_diamond', prog({'r0': [], 'r1': ['r0'], 'r2': ['r0'], 'r3': ['r1', 'r2']}, 'r3')))
+    out.append(('rev_diamond_err', prog({'r0': [], 'r1': ['r0'], 'r2': ['r0'], 'r3': ['r1', 'r2']}, 'r3', {'r1': ['err', 'ok']})))
+    out.append(('rev_outside', prog({'r0': [], 'r1': [], 'r2': ['r0'], 'r3': ['r2', 'r1']}, 'r2')))
+    out.append(('rev_two_roots', prog({'r0': [], 'r1': [], 'r2': ['r0', 'r1']}, 'r2', {'r0': ['err', 'ok']})))
+    return out
+
+
 def diamond(join=-1, outcomes=None, err_route=False):
     """a -> (b, c) -> j(join)."""
     P = Program()
@@ -453,7 +474,7 @@ def failing_shapes():
     """The shapes of the three catalogues in which some action fails (what a rerun / skip can be applied to); the failing
     action succeeds when it is executed once more."""
     out = []
-    for nm, P in catalogue() + items_catalogue() + policy_catalogue():
+    for nm, P in catalogue() + items_catalogue() + policy_catalogue() + reverse_catalogue():
         bad = False
         for tag, oc in list(P.oracle.items()):
             if isinstance(oc, list) and 'err' in oc:
